@@ -2,6 +2,7 @@
 # usage: tools/soak.sh "<seeds>" [tier] [ids...]  -- runs every check on the unchanged tree at several VERIF_SEED values
 # (fresh processes); prints one line per run. Evidence/replays go to a scratch dir, not to evidence/.
 cd "$(dirname "${BASH_SOURCE[0]}")/.."
+./setup.sh > /dev/null 2>&1      # a snapshot has no .deps: make atheris importable for the fuzz parts
 seeds="${1:-2 3 4 5 6}"; tier="${2:-quick}"; shift 2 2>/dev/null
 ids="$@"; [ -z "$ids" ] && ids="C01 C02 C03 C04 C05 C06 C07 C08 C09 C10 C11 C12 C13 C14 C15 C16 C17 C18 C19 C20"
 out=$(mktemp -d .work/soak-XXXXXX 2>/dev/null || { mkdir -p .work; mktemp -d .work/soak-XXXXXX; })
